@@ -140,8 +140,10 @@ def file_shard(_):
                         e.last_access_date) for e in tdf.entries]
                 blocks = [specs.lib_encode(tdf.get_block(i)) for i in range(2)]
                 hdr = (tdf.version, tdf.nEntries, tdf.creation_date, tdf.last_modification_date, tdf.last_access_date)
+                keep.append(list(tdf.entries))
                 return ent, blocks, hdr, len(tdf), tdf.has_events, tdf.has_emg
 
+        keep = []   # the entry objects of every view: they must also compare equal as objects (==, in, index)
         base = view(canon)
         acc.n["states"] += 1
         acc.n["evaluations"] += 1
@@ -161,6 +163,17 @@ def file_shard(_):
             if got != base:
                 acc.violation("dontcare-byte-changes-content", f"{PROP}:file:changes-content:{where}", wit,
                               f"N={nslots} {name} [{a},{b}) fill={f}")
+                continue
+            e0, e1 = keep[0], keep[-1]
+            del keep[1:]
+            try:
+                same = len(e0) == len(e1) and all(x == y and not (x != y) for x, y in zip(e0, e1)) and all(y in e0 for y in e1[:2])
+            except Exception as e:  # noqa: BLE001
+                same = f"{type(e).__name__}: {e}"
+            if same is not True:
+                acc.violation("dontcare-byte-changes-content", f"{PROP}:file:changes-entry-equality:{where}", wit,
+                              f"N={nslots} {name} [{a},{b}) fill={f}: the jump-table entry objects no longer compare equal to those of "
+                              f"the canonical file ({same})")
             else:
                 acc.outcomes[f"file:N{nslots}:{where}:same"] += 1
                 acc.n["traces"] += 1
